@@ -37,6 +37,7 @@ type utlInterp struct {
 	sl  *types.Slice[int]
 	set *types.Set[int]
 	mp  *types.Map[int, int]
+	mapQuiet bool
 	em  *emWorld
 	yst *utils.Yeast
 }
@@ -61,6 +62,11 @@ func (it *utlInterp) Exec(line string) string {
 			return it.slice(t[2:])
 		case "set":
 			return it.setOp(t[2:])
+		case "mapq":
+			it.mapQuiet = true
+			out := it.mapOp(t[2:])
+			it.mapQuiet = false
+			return out
 		case "map":
 			return it.mapOp(t[2:])
 		case "em":
@@ -187,6 +193,10 @@ func (it *utlInterp) setOp(t []string) string {
 
 func (it *utlInterp) mapOp(t []string) string {
 	st := func(res string) string {
+		n := it.mp.Len() // before Keys(): listing the keys promotes the dirty map, which would hide a stale count
+		if it.mapQuiet {
+			return res + " ; len=" + fmt.Sprint(n) // the contents are not listed: listing walks the map and reorganises it
+		}
 		var kv []string
 		keys := it.mp.Keys()
 		sort.Ints(keys)
@@ -198,7 +208,7 @@ func (it *utlInterp) mapOp(t []string) string {
 		if s == "" {
 			s = "-"
 		}
-		return res + " ; " + s + " len=" + fmt.Sprint(it.mp.Len())
+		return res + " ; " + s + " len=" + fmt.Sprint(n)
 	}
 	vb := func(v int, ok bool) string {
 		if !ok {
@@ -583,6 +593,7 @@ func famUtl(t *testing.T, r *Rec) {
 		it := &utlInterp{}
 		var replay []string
 		ref := map[int]int{}
+		quiet := s < 3 || s%2 == 1 // the contents are listed in every other sequence only: listing reorganises the map
 		state := func() string {
 			var ks []int
 			for k := range ref {
@@ -597,14 +608,28 @@ func famUtl(t *testing.T, r *Rec) {
 			if x == "" {
 				x = "-"
 			}
+			if quiet {
+				return "len=" + fmt.Sprint(len(ref))
+			}
 			return x + " len=" + fmt.Sprint(len(ref))
 		}
 		op := "utl map new"
 		r.Op(op, it.Exec(op))
 		replay = append(replay, op)
 		r.scenarios++
+		// the first sequences open with the histories in which the read-only part and the dirty part of the
+		// map disagree about a key (a promotion by misses, then a delete through the read path / CompareAndDelete)
+		scripted := [][][3]int{
+			{{0, 1, 1}, {2, 1, 0}, {0, 2, 2}, {5, 1, 0}, {2, 2, 0}},
+			{{0, 1, 1}, {0, 2, 2}, {8, 1, 1}, {2, 2, 0}},
+			{{0, 1, 1}, {2, 1, 0}, {0, 2, 2}, {4, 1, 0}, {0, 3, 3}, {5, 2, 0}},
+		}
 		for k := 0; k < 25; k++ {
 			key, v, v2 := r.rng.IntN(5), r.rng.IntN(4), r.rng.IntN(4)
+			choice := r.rng.IntN(11)
+			if s < len(scripted) && k < len(scripted[s]) {
+				choice, key, v = scripted[s][k][0], scripted[s][k][1], scripted[s][k][2]
+			}
 			old, had := ref[key]
 			vb := func() string {
 				if !had {
@@ -613,7 +638,7 @@ func famUtl(t *testing.T, r *Rec) {
 				return fmt.Sprint(old)
 			}
 			var want string
-			switch r.rng.IntN(11) {
+			switch choice {
 			case 0, 1:
 				op = fmt.Sprintf("utl map store %d %d", key, v)
 				ref[key] = v
@@ -671,10 +696,13 @@ func famUtl(t *testing.T, r *Rec) {
 					want = vb()
 				}
 			}
+			if quiet {
+				op = strings.Replace(op, "utl map ", "utl mapq ", 1)
+			}
 			out := it.Exec(op)
 			r.Op(op, out)
 			replay = append(replay, op)
-			r.Cover("map/" + strings.Fields(op)[2] + "/had=" + b01(had))
+			r.Cover("map/" + strings.Fields(op)[2] + "/had=" + b01(had) + "/quiet=" + b01(quiet))
 			if out != want+" ; "+state() {
 				r.Violate("C20", "C20/map/"+strings.Fields(op)[2], fmt.Sprintf("%s => %s, want %s ; %s", op, out, want, state()), replay)
 				break
